@@ -8,19 +8,21 @@ From C26 Require Import C26Spec C26_gen.
 Import ListNotations.
 Local Open Scope R_scope.
 
+Ltac ad_side := repeat split; first [assumption | exact I | lra | nra | (intro; lra) | (intro; nra)].
+
 (* ---- Cohen *)
 Lemma cohen_odd : odd cohen_f.
 Proof. intro y. unfold cohen_f. cbv zeta. replace (- y * - y) with (y * y) by ring. unfold Rdiv. ring. Qed.
 
 Lemma cohen_vd : value_and_derivative cohen_f (fun y => cohen_fd y) open_unit.
 Proof.
-  intros y [H1 H2]. assert (Hd : 1 - y * y <> 0) by nra.
+  intros y [H1 H2]. assert (Hp : 0 < 1 - y * y) by nra. assert (Hd : 1 - y * y <> 0) by lra.
   unfold cohen_fd, cohen_f. cbv zeta. cbn [nth]. split; [|split].
-  - field. assumption.
-  - auto_derive; [assumption|]. field. assumption.
+  - field; ad_side.
+  - auto_derive; [ad_side|]. field; ad_side.
   - assert (0 < 1 - y * y) by nra. assert (0 < 1 / (1 - y * y)) by (apply Rdiv_lt_0_compat; lra).
     assert (0 < y * y * (y * y) + 3) by nra.
-    repeat apply Rmult_lt_0_compat; assumption.
+    apply Rmult_lt_0_compat; [apply Rmult_lt_0_compat|]; assumption.
 Qed.
 
 Lemma cohen_inverts : inverts cohen_f (1 / 20) (19 / 20) (2 / 100).
@@ -35,15 +37,11 @@ Proof. intro y. unfold morch_f. cbv zeta. replace ((- y) ^ 2) with (y ^ 2) by ri
 Lemma kuhngrun_is_morch y : kuhngrun_f y = morch_f y /\ kuhngrun_fd y = morch_fd y.
 Proof. split; reflexivity. Qed.
 
-Lemma morch_vd : value_and_derivative morch_f (fun y => morch_fd y) (fun _ => True).
+Lemma morch_vd : value_and_derivative morch_f (fun y => morch_fd y) open_unit.
 Proof.
-  intros y _. unfold morch_fd, morch_f. cbv zeta. cbn [nth]. split; [reflexivity|split].
-  - auto_derive; [exact I|]. field.
-  - assert (H : 0 <= y ^ 2) by (simpl; nra). set (z := y ^ 2) in *.
-    replace (y * (_ * 2 * y)) with (2 * z * (((((((((120505362 / 5935667 * z + 1397551528 / 77539817) * z + 211801442 / 13738959) * z +
-      461724180 / 36422363) * z + 43733439 / 4379375) * z + 504468 / 67375) * z + 4617 / 875) * z + 594 / 175) * z + 9 / 5))
-      by (unfold z; ring).
-    interval with (i_bisect z, i_depth 1).
+  intros y [H1 H2]. unfold morch_fd, morch_f. cbv zeta. cbn [nth]. split; [reflexivity|split].
+  - auto_derive; [ad_side|]. field.
+  - interval with (i_bisect y, i_depth 8).
 Qed.
 
 Lemma morch_inverts : inverts morch_f (1 / 20) (4 / 5) (4 / 1000).
